@@ -228,7 +228,7 @@ pub fn run(ctx: &Ctx, acc: &mut Acc) {
             let mut idx = 0usize;
             'd: for l in 0..=20usize {
                 for kinds in 0..4usize {
-                    for k in 0..=5usize {
+                    for k in 0..=7usize {
                         for printed in [0usize, l / 2, l.saturating_sub(1)] {
                             idx += 1;
                             if idx % ctx.nshards != ctx.shard {
@@ -244,6 +244,9 @@ pub fn run(ctx: &Ctx, acc: &mut Acc) {
                             };
                             let args: Vec<i64> = (0..k).map(|i| 10 + i as i64 * 3).collect();
                             for isa in &isas {
+                                if k > 5 && *isa != Isa::A64 {
+                                    continue; // x86-64 passes at most 5 entry arguments
+                                }
                                 acc.evaluations += 1;
                                 let c = LinCase { linear: &st.linear, args: &args, origin: format!("directed print with {l} live variables kinds={kinds} args={k}"), src: Some(&src) };
                                 if judge_linear(prop, *isa, acc, &c, &cfg) {
